@@ -1,7 +1,11 @@
 """C07 — InlineTrans vs. the Lean model C07 (validate accept/refuse, inlined statements up to fresh
 names) and the property itself on the real code: original and inlined program are compiled with
 gfortran (-fcheck=bounds -ftrapv) and their outputs compared.  The Lean CALL semantics (`execC`) and the
-model's inlined program are cross-checked against both gfortran outputs."""
+model's inlined program are cross-checked against both gfortran outputs.
+
+The model is in FIXED mode for fixes/C07-loopvar-formal.patch and fixes/C07-outer-capture.patch: on a tree
+without them the former witnesses (corpus/C07/fixed-*.json) are reported as VIOLATION.  Subroutine calls and
+function references inside assignments are covered."""
 import concurrent.futures
 import glob
 import json
